@@ -13,8 +13,17 @@
      the index; each rule has its own ticker, any subset may run at any instant), OTick = time
      passes. [mono_from t0 h] = the instants do not decrease; the verdict is asked at an instant [now] not before
      the last one.
-   - [firing h now s] = s is the latest update of its fingerprint in h and is not resolved at now
-     (EndsAt unset or after now: Alert.ResolvedAt, DESIGN I1).
+     ORestart snap pend = a NEW Inhibitor replaces the old one (initial start, configuration reload): it gets the
+     provider's snapshot snap (any order) and the updates pend that were published after the snapshot was taken
+     but before the new inhibitor processed any of it; it applies the snapshot first, then pend in order.
+   - [hist_ok [] h] = every restart's snapshot is what provider/mem hands out at that point of the history: each
+     entry is the latest published update of its fingerprint, and every fingerprint whose latest update is
+     unresolved at that instant has its entry (resolved ones may or may not still be held). The Run module
+     checks this on every recorded history (hist_okb, proved sound). Histories without restarts satisfy it
+     trivially (c03_hist_ok_without_restart).
+   - [firing h now s] = s is the latest PUBLISHED update of its fingerprint in h (OProcess and the pend of
+     restarts; a snapshot publishes nothing) and is not resolved at now (EndsAt unset or after now:
+     Alert.ResolvedAt, DESIGN I1). This is what the provider holds as unresolved alerts at now.
    - fingerprints are injective (modelled by the label list), DESIGN I9. *)
 From AM Require Import Base.Prelude Model.Matchers Model.Inhibit Proofs.InhibitProofs.
 
@@ -22,23 +31,28 @@ From AM Require Import Base.Prelude Model.Matchers Model.Inhibit Proofs.InhibitP
    some currently firing alert matches that rule's source side and agrees with the label set on every label of
    the equal list (missing = empty), and it is not the case that both match both sides.
    For ALL regexp semantics, rule sets, label sets and histories (any arrival order, refreshes with any end times,
-   resolves, time-outs, garbage collections at any instants, re-fires, any number of sources sharing equal-values). *)
+   resolves, time-outs, garbage collections at any instants, re-fires, any number of sources sharing equal-values,
+   restarts of the inhibitor with updates arriving while the new one loads). *)
 Theorem c03_mutes_iff_spec re cfgs h t0 now lset :
-  mono_from t0 h -> last_time t0 h <= now ->
+  mono_from t0 h -> hist_ok [] h -> last_time t0 h <= now ->
   (muted re (run re (map new_rule cfgs) h) lset now = true <-> inhibited re cfgs (firing h now) lset).
 Proof. exact (mutes_iff_spec re cfgs h t0 now lset). Qed.
 
 (* The verdict depends only on the set of currently firing alerts ... *)
 Theorem c03_verdict_depends_only_on_firing re cfgs h1 h2 t1 t2 now lset :
-  mono_from t1 h1 -> last_time t1 h1 <= now -> mono_from t2 h2 -> last_time t2 h2 <= now ->
+  mono_from t1 h1 -> hist_ok [] h1 -> last_time t1 h1 <= now ->
+  mono_from t2 h2 -> hist_ok [] h2 -> last_time t2 h2 <= now ->
   (forall s, firing h1 now s <-> firing h2 now s) ->
   muted re (run re (map new_rule cfgs) h1) lset now = muted re (run re (map new_rule cfgs) h2) lset now.
 Proof. exact (verdict_depends_only_on_firing re cfgs h1 h2 t1 t2 now lset). Qed.
 
 (* ... in particular not on the order in which updates arrived, were refreshed, resolved or collected: two
-   histories with the same latest update per fingerprint give the same verdict. *)
+   histories with the same latest published update per fingerprint give the same verdict (the latest update
+   wins, also when it arrived while a new inhibitor was loading a snapshot that still held the older version;
+   the order of the snapshot is irrelevant). *)
 Corollary c03_order_independent re cfgs h1 h2 t1 t2 now lset :
-  mono_from t1 h1 -> last_time t1 h1 <= now -> mono_from t2 h2 -> last_time t2 h2 <= now ->
+  mono_from t1 h1 -> hist_ok [] h1 -> last_time t1 h1 <= now ->
+  mono_from t2 h2 -> hist_ok [] h2 -> last_time t2 h2 <= now ->
   (forall f, latest h1 f = latest h2 f) ->
   muted re (run re (map new_rule cfgs) h1) lset now = muted re (run re (map new_rule cfgs) h2) lset now.
 Proof. exact (order_independent re cfgs h1 h2 t1 t2 now lset). Qed.
@@ -47,11 +61,20 @@ Proof. exact (order_independent re cfgs h1 h2 t1 t2 now lset). Qed.
    of the permitted set the implementation picks (Go map order), it is a currently firing alert that inhibits
    the label set under one of the rules (the first rule that inhibits); the set is never empty. *)
 Theorem c03_inhibitedBy_sound re cfgs h t0 now lset fs :
-  mono_from t0 h -> last_time t0 h <= now ->
+  mono_from t0 h -> hist_ok [] h -> last_time t0 h <= now ->
   mutes re (run re (map new_rule cfgs) h) lset now = Some fs ->
   fs <> [] /\ exists c, In c cfgs /\ forall f, f ∈ fs ->
     exists s, firing h now s /\ a_lbls s = f /\ inhibits re c s lset.
 Proof. exact (mutes_witnesses re cfgs h t0 now lset fs). Qed.
+
+(* The snapshot hypothesis: trivially met without restarts, and implied by the boolean check the Run module
+   evaluates on every recorded history. *)
+Theorem c03_hist_ok_without_restart h pre :
+  (forall x, In x h -> match snd x with ORestart _ _ => False | _ => True end) -> hist_ok pre h.
+Proof. exact (hist_ok_no_restart h pre). Qed.
+
+Theorem c03_hist_okb_sound h pre : hist_okb pre h = true -> hist_ok pre h.
+Proof. exact (hist_okb_sound h pre). Qed.
 
 (* The rule evaluated by the Run module's prop_case / by the harness oracle is the rule of the theorems. *)
 Theorem c03_executable_rule_is_the_rule re c s lset : inhibitsb re c s lset = true <-> inhibits re c s lset.
@@ -72,7 +95,7 @@ Definition ex_ha := [(0, OProcess (mkA ex_s1 1 (60 * ex_min) 1));
                      (ex_min, OProcess (mkA ex_s2 ex_min (121 * ex_min) ex_min));
                      (2 * ex_min, OProcess (mkA ex_s2 ex_min (2 * ex_min - 1) (2 * ex_min)))].
 Theorem c03_single_index_refuted_a :
-  exists cfgs h now lset, mono_from 0 h /\ last_time 0 h <= now /\
+  exists cfgs h now lset, mono_from 0 h /\ hist_okb [] h = true /\ last_time 0 h <= now /\
     muted ex_re (run ex_re (map new_rule cfgs) h) lset now = true /\ old_muted ex_re cfgs h lset now = false.
 Proof. exists [ex_rule], ex_ha, (3 * ex_min), ex_t. vm_compute. repeat split; discriminate. Qed.
 
@@ -81,7 +104,7 @@ Definition ex_hb := [(0, OProcess (mkA ex_s1 1 (60 * ex_min) 1));
                      (ex_min, OProcess (mkA ex_s2 ex_min (6 * ex_min) ex_min));
                      (15 * ex_min, OGC (fun _ => true))].
 Theorem c03_single_index_refuted_b :
-  exists cfgs h now lset, mono_from 0 h /\ last_time 0 h <= now /\
+  exists cfgs h now lset, mono_from 0 h /\ hist_okb [] h = true /\ last_time 0 h <= now /\
     muted ex_re (run ex_re (map new_rule cfgs) h) lset now = true /\ old_muted ex_re cfgs h lset now = false.
 Proof. exists [ex_rule], ex_hb, (17 * ex_min), ex_t. vm_compute. repeat split; discriminate. Qed.
 
@@ -92,7 +115,7 @@ Definition ex_c2 := [("cluster", "a"); ("sev", "crit")].
 Definition ex_hc := [(0, OProcess (mkA ex_c1 1 (60 * ex_min) 1));
                      (ex_min, OProcess (mkA ex_c2 ex_min (121 * ex_min) ex_min))].
 Theorem c03_single_index_refuted_c :
-  exists cfgs h now lset, mono_from 0 h /\ last_time 0 h <= now /\
+  exists cfgs h now lset, mono_from 0 h /\ hist_okb [] h = true /\ last_time 0 h <= now /\
     muted ex_re (run ex_re (map new_rule cfgs) h) lset now = true /\ old_muted ex_re cfgs h lset now = false.
 Proof. exists [ex_rule_c], ex_hc, (2 * ex_min), ex_t. vm_compute. repeat split; discriminate. Qed.
 
@@ -114,6 +137,30 @@ Example c03_nonvacuous_order :
   latest h2 ex_s1 = latest ex_hb ex_s1 /\ latest h2 ex_s2 = latest ex_hb ex_s2 /\
   muted ex_re (run ex_re (map new_rule [ex_rule]) h2) ex_t (17 * ex_min) = true.
 Proof. vm_compute. repeat split; discriminate. Qed.
+
+(* a restart during which updates arrive: the provider holds S1 firing and S2 resolved; while the new inhibitor
+   loads, S1 is resolved and S2 fires again. The hypotheses hold, and the latest updates win over the snapshot. *)
+Definition ex_s1b := [("cluster", "b"); ("inst", "1"); ("sev", "crit")].
+Definition ex_tb := [("cluster", "b"); ("sev", "warn")].
+Definition ex_hr :=
+  let s1 := mkA ex_s1 1 (60 * ex_min) 1 in
+  let s2 := mkA ex_s1b 1 (2 * ex_min) (2 * ex_min) in
+  [(0, OProcess s1); (ex_min, OProcess (mkA ex_s1b 1 (60 * ex_min) ex_min)); (2 * ex_min, OProcess s2);
+   (3 * ex_min, ORestart [s2; s1] [mkA ex_s1 1 (3 * ex_min) (3 * ex_min); mkA ex_s1b (3 * ex_min) (90 * ex_min) (3 * ex_min)]);
+   (4 * ex_min, OTick)].
+Example c03_nonvacuous_restart :
+  let ih := run ex_re (map new_rule [ex_rule]) ex_hr in
+  mono_from 0 ex_hr /\ hist_ok [] ex_hr /\
+  muted ex_re ih ex_t (4 * ex_min) = false /\     (* S1 was resolved during the load *)
+  mutes ex_re ih ex_tb (4 * ex_min) = Some [ex_s1b]. (* S2 fired again during the load *)
+Proof.
+  split; [vm_compute; repeat split; discriminate|]. split; [apply hist_okb_sound; vm_compute; reflexivity|].
+  vm_compute. split; reflexivity.
+Qed.
+Example c03_restart_hypothesis_excludes_stale_snapshots :
+  (* a "snapshot" that misses the firing S1 is not something the provider hands out *)
+  hist_okb [] [(0, OProcess (mkA ex_s1 1 (60 * ex_min) 1)); (ex_min, ORestart [] [])] = false.
+Proof. vm_compute. reflexivity. Qed.
 
 Print Assumptions c03_mutes_iff_spec.
 Print Assumptions c03_verdict_depends_only_on_firing.
